@@ -252,7 +252,8 @@ def hs_desc(action, addr, hsdir, auth="UNKNOWN", descid=None, reason=None, repli
     elif action == "FAILED":
         if descid is not None:
             t.append(descid)
-        t.append("REASON=%s" % (reason or "UPLOAD_REJECTED"))
+        if reason != "":                        # reason="" : no REASON= field (it is optional in the grammar)
+            t.append("REASON=%s" % (reason or "UPLOAD_REJECTED"))
     elif action == "CREATED":
         t[3] = "UNKNOWN"
         t.append(descid if descid is not None else descriptor_id(addr))
@@ -334,6 +335,8 @@ def selftest():
         assert (p["descid"] is None) == (act == "UPLOADED")
         assert ("REASON" in p["kw"]) == (act == "FAILED")
         n += 1
+    assert "REASON" not in hs_desc("FAILED", "abcdefghijklmnop", hsdir_name(1), reason="")
+    assert hs_desc("FAILED", "abcdefghijklmnop", hsdir_name(1), reason="UNEXPECTED").endswith(" REASON=UNEXPECTED"); n += 1
     code, parts = add_onion_reply("abcdefghijklmnop", "RSA1024:xyz", [("bob", "cookie")])
     assert code == 250 and parts == [("mid", "ServiceID=abcdefghijklmnop"), ("mid", "PrivateKey=RSA1024:xyz"),
                                      ("mid", "ClientAuth=bob:cookie"), ("end", "OK")]; n += 1
